@@ -24,7 +24,7 @@ ASSUMPTIONS = [
     "callbacks registered by the harness are unregistered after each solve; the user does not mutate Params between solves",
 ]
 TIERS = {
-    "quick": {"worlds": 260, "wall": 150, "limit": 120.0},
+    "quick": {"worlds": 420, "wall": 150, "limit": 120.0},
     "thorough": {"worlds": 5000, "wall": 1700, "limit": 240.0},
 }
 GATES = ("ops.reused_solver", "ops.shared_params", "ops.after_abort", "ops.default_params", "ops.repeat_identical", "nontrivial")
